@@ -1898,6 +1898,44 @@ def _check_nontrivial(r, im, E0):
         r.ok(im.mod, im.qual, cons + ": every SCC with >= 2 blocks gets a super-block")
 
 
+def _check_isolation(r, im):
+    """each super-block resolves its block functions in its own namespace: the globals mapping handed to exec is created
+    per SCC, or no entry of a shared mapping is re-assigned per SCC (the generated code looks names up at call time)"""
+    m, fn = im.mod, im.qual
+    emits = im.emits()
+    scopes = [im.root] + [im.builder.local_defs[n] for n in sorted(im.builder.emit_funcs)]
+    for e in emits:
+        if isinstance(e.globals, Sym):
+            k = e.globals.key
+            name = k[1] if k[0] == 'free' else None
+            touched = [n for sc in scopes for n in ast.walk(sc) if name and (
+                (isinstance(n, ast.Subscript) and isinstance(n.ctx, ast.Store) and norm(n.value) == name) or
+                (isinstance(n, ast.Call) and isinstance(n.func, ast.Attribute) and norm(n.func.value) == name
+                 and n.func.attr in ('update', 'setdefault', '__setitem__')))]
+            if touched:
+                keys = sorted({norm(n.slice) if isinstance(n, ast.Subscript) else norm(n) for n in touched})
+                r.bad(m, fn, f"{norm(e.call)}: globals `{name}` created outside the per-SCC code",
+                      f"the mapping `{name}` handed to exec as the globals of every super-block is created once outside "
+                      f"{im.root.name} and its entries {keys} are re-assigned for every SCC; the generated loop resolves them "
+                      f"when it is called, so every super-block runs the blocks of the SCC compiled last and the other cycles "
+                      f"are never evaluated", e.call.lineno)
+                return False
+            raise AnalysisError(f"{fn}: the globals handed to exec ({e.globals!r}) are not created by the analysed code")
+    shared = [e for e in emits if e.reuse >= 2 and e.rewritten]
+    if shared:
+        e = shared[0]
+        r.bad(m, fn, f"{norm(e.call)}: one globals mapping for all SCCs, entries {list(e.rewritten)} re-assigned",
+              f"the same globals mapping `{norm(e.globals_arg)}` is handed to exec for a second SCC after its entries "
+              f"{list(e.rewritten)} were re-assigned; the generated loop resolves these names when it is called, so every "
+              f"super-block runs the blocks of the SCC generated last and the other cyclic groups are never evaluated "
+              f"(needs two non-trivial SCCs)", e.call.lineno)
+        return True
+    twice = any(len([x for x in emits if x.plan == e.plan and x.choices[:1] == e.choices[:1]]) >= 2 for e in emits)
+    r.ok(m, fn, f"{norm(emits[0].call)}: globals mapping `{norm(emits[0].globals_arg)}` is created per super-block"
+                + (" (paths generating two super-blocks checked)" if twice else ""))
+    return True
+
+
 def rule_cover(repo):
     r = RuleResult('R-C11-cover',
                    "the loop re-evaluates every block of the SCC: the BFS schedule reaches the whole SCC from a non-empty "
@@ -1911,6 +1949,8 @@ def rule_cover(repo):
             raise AnalysisError(f"{im.qual}: cannot identify the SCC set")
         for E0 in emission_stmts(im):
             _check_nontrivial(r, im, E0)
+        if not _check_isolation(r, im):
+            continue
         lists = _check_emitted_blocks(r, im)
         whole = sorted({n for k, n in lists if k == 'whole'})
         parts = sorted({n for k, n in lists if k in ('last', 'parts')})
@@ -2166,7 +2206,8 @@ EXPLANATION = (
     "update_once block in the SCC and an SCC without value-carrying variables raise UpblkCyclicError before the block is "
     "generated. R-C11-cover decides that the generated loop calls exactly the blocks of the BFS schedule and that the BFS "
     "(push region, marking, seeds incl. the direction of the predecessor-SCC search, Mamba's trace-breaking partition) "
-    "loses no block of the SCC, and that every SCC with two or more blocks gets a super-block. R-C11-siblings: both schedulers use the same iteration bound. R-C11-acyclic: "
+    "loses no block of the SCC, that every SCC with two or more blocks gets a super-block, and that the globals mapping of each "
+    "super-block is created per SCC (or no entry of a shared mapping is re-assigned per SCC: generated code binds late). R-C11-siblings: both schedulers use the same iteration bound. R-C11-acyclic: "
     "SimpleSchedulePass rejects an incomplete topological sort with UpblkCyclicError. NOT decided: convergence itself, "
     "and that for a false loop the values equal those of the equivalent acyclic design (runtime values); that update "
     "blocks are pure functions of the signals they read. The OpenLoopCLPass copy of the SCC code is outside the anchors "
@@ -2279,6 +2320,20 @@ MUTANTS = [
     _m('mamba-two-block-scc-treated-as-trivial', "      if len(scc) == 1:\n        return list(scc)[0]", "      if len(scc) < 3:\n        return list(scc)[0]",
        'R-C11-cover', file=MAMBA),
     _m('dyn-scc-computed-on-transposed-graph', "SCCs, G_new = kosaraju_scc( G, G_T )", "SCCs, G_new = kosaraju_scc( G_T, G )", 'R-C11-cover'),
+    dict(name='dyn-one-globals-dict-for-all-sccs', rule='R-C11-cover', edits=[
+        dict(file=DYN, old="    scc_id = 0\n    for i in scc_schedule:",
+             new="    scc_globals = { 's': top, 'deepcopy': deepcopy, 'UpblkCyclicError': UpblkCyclicError }\n\n"
+                 "    scc_id = 0\n    for i in scc_schedule:"),
+        dict(file=DYN, old="          scc_tick_func = SimpleTickPass.gen_tick_function( scc )\n"
+                           "          _globals = { 's': s, 'scc_tick_func': scc_tick_func, 'deepcopy': deepcopy,\n"
+                           "                       'UpblkCyclicError': UpblkCyclicError }\n",
+             new="          scc_globals[ 'scc_tick_func' ] = SimpleTickPass.gen_tick_function( scc )\n"),
+        dict(file=DYN, old="custom_exec(py.code.Source( src ).compile(), _globals, _locals)",
+             new="custom_exec(py.code.Source( src ).compile(), scc_globals, _locals)")]),
+    dict(name='mamba-globals-dict-hoisted-out-of-compile-scc', rule='R-C11-cover', edits=[
+        dict(file=MAMBA, old="      _globals = { 's': top, 'UpblkCyclicError': UpblkCyclicError }\n", new=""),
+        dict(file=MAMBA, old="    def compile_scc( i ):\n",
+             new="    _globals = { 's': top, 'UpblkCyclicError': UpblkCyclicError }\n    def compile_scc( i ):\n")]),
     # --- siblings / acyclic-only pass
     _m('mamba-bound-differs', "    if N > 100:\n", "    if N > 1000:\n", 'R-C11-siblings', file=MAMBA),
     _m('simple-incomplete-schedule-accepted', "if len(schedule) != len(V):", "if len(schedule) > len(V):", 'R-C11-acyclic',
@@ -2311,6 +2366,13 @@ EQUIV = [
     _m('percent-formatting', """copy_srcs.append( f"host = {host!r}" )""", """copy_srcs.append( "host = %r" % (host,) )""", file=MAMBA),
     _m('variable-loop-with-enumerate', "          for var in var_list:\n            var_id += 1\n",
        "          for var_id, var in enumerate(var_list, var_id+1):\n"),
+    dict(name='shared-base-globals-copied-per-scc', edits=[
+        dict(file=DYN, old="    scc_id = 0\n    for i in scc_schedule:",
+             new="    base_globals = { 's': top, 'deepcopy': deepcopy, 'UpblkCyclicError': UpblkCyclicError }\n\n"
+                 "    scc_id = 0\n    for i in scc_schedule:"),
+        dict(file=DYN, old="          _globals = { 's': s, 'scc_tick_func': scc_tick_func, 'deepcopy': deepcopy,\n"
+                           "                       'UpblkCyclicError': UpblkCyclicError }\n",
+             new="          _globals = dict( base_globals )\n          _globals[ 'scc_tick_func' ] = scc_tick_func\n")]),
     _m('while-one', "  while True:\n", "  while 1:\n", file=MAMBA),
     dict(name='counter-starts-at-one', edits=[dict(file=DYN, old="  N = 0\n", new="  N = 1\n"),
                                               dict(file=DYN, old="    if N > 100:\n", new="    if N > 101:\n")]),
